@@ -111,7 +111,7 @@ def run_C02(run):
     import itertools
     from .. import common
     cov, assumptions = _run(run, [monitors.C02(1500 if run.tier == 'quick' else 6000)])
-    atoms = [e for e, _ in al.tiny_atoms()] + ["'a|b'", "'['", "Capture('c')", "Optional('a')"]
+    atoms = [e for e, _ in al.tiny_atoms()] + ["'a|b'", "'['", "Capture('c')", "Optional('a')", "'a+'", "OneOrMore('a')", "'a\\\\|b'"]
     a4 = ["'a'", "Pregex()", "Either('a', 'b')", "'c|'"] if run.tier == 'quick' else atoms[:6]
     cases = [(cls, combo) for cls in FOLD_CLASSES for combo in itertools.product(atoms, repeat=3)]
     cases += [(cls, combo) for cls in FOLD_CLASSES for combo in itertools.product(a4, repeat=4)]
@@ -331,9 +331,73 @@ def run_C09(run):
     return cov, assumptions
 
 
+def _task_varwidth(lits):
+    """a variable-width assertion built from any literal must be refused with NonFixedWidthPatternException"""
+    from ..common import V
+    dsl.setup_worker()
+    viol, n = [], 0
+    forms = ["PrecededBy('k', Optional({0}))", "NotPrecededBy('k', OneOrMore({0}))", "EnclosedBy('k', Indefinite({0}))",
+             "NotEnclosedBy('k', AtLeastAtMost({0}, 1, 2))", "Pregex('k').preceded_by(Pregex({0}) + Optional('z'))",
+             "Pregex('k').not_preceded_by(Either({0}, Pregex({0}) + 'zz'))", "PrecededBy('k', 'z', Optional({0}))",
+             "NotPrecededBy('k', AtMost({0}, 2), 'z')", "PrecededBy('k', Capture(Optional({0})))", "NotEnclosedBy('k', Group(AtLeast({0}, 2)))"]
+    for s in lits:
+        for f in forms:
+            src = f.format(repr(s))
+            n += 1
+            try:
+                r = dsl.build(src)
+                bad = 'accepted: ' + str(r)
+            except Exception as e:  # noqa: BLE001
+                bad = None if type(e).__name__ == 'NonFixedWidthPatternException' else 'raised ' + type(e).__name__
+            if bad:
+                viol.append(V(f'C10|varwidth|{src}', f"{src}: {bad} (the assertion pattern has no single fixed width)",
+                              f"try:\n    r = {src}\nexcept NonFixedWidthPatternException:\n    pass\nelse:\n    raise AssertionError('accepted: ' + str(r))"))
+    return viol, n
+
+
+LOOKALIKES = [("'a+'", "OneOrMore('a')"), ("'a*'", "Indefinite('a')"), ("'a?'", "Optional('a')"), ("'a{1,2}'", "AtLeastAtMost('a', 1, 2)"),
+              ("'a|bc'", "Either('a', 'bc')"), ("'(?:a)?'", "Optional(Group('a'))"), ("'a+?'", "OneOrMore('a', False)"), ("'[ab]*'", "Indefinite(AnyFrom('a', 'b'))"),
+              ("'a{2,}'", "AtLeast('a', 2)"), ("'\\\\d+'", "OneOrMore(AnyDigit())")]
+
+
 def run_C10(run):
+    from .. import common
+    from ..common import V
     cov, assumptions = _run(run, [monitors.C10()])
     _literal_sweep(run, 'C10', cov)
+    lits = [s for s in al.all_literals() if s]
+    if run.tier == 'quick':
+        lits = [s for s in lits if len(s) == 1 or s in al.CURATED] + [s for i, s in enumerate(lits) if len(s) == 2 and i % 4 == 0]
+    n = 0
+    for viol, k in common.pmap(_task_varwidth, common.chunks(lits, 40)):
+        run.add(viol)
+        n += k
+    # a literal spelled like a variable-width pattern next to that pattern, in every position of the n-ary classes
+    for lit, var in LOOKALIKES:
+        for cls in ('PrecededBy', 'NotPrecededBy', 'EnclosedBy', 'NotEnclosedBy'):
+            for args in ((lit, var), (var, lit), (lit, lit, var), (var, var), (lit, "'z'", var)):
+                src = f"{cls}('k', {', '.join(args)})"
+                n += 1
+                try:
+                    r = dsl.build(src)
+                    bad = 'accepted: ' + str(r)
+                except Exception as e:  # noqa: BLE001
+                    bad = None if type(e).__name__ == 'NonFixedWidthPatternException' else 'raised ' + type(e).__name__
+                if bad:
+                    run.add([V(f'C10|lookalike|{src}', f"{src}: {bad} (one of the assertion patterns has no single fixed width)",
+                               f"try:\n    r = {src}\nexcept NonFixedWidthPatternException:\n    pass\nelse:\n    raise AssertionError('accepted: ' + str(r))")])
+            src = f"{cls}('k', {lit}, {lit})"
+            n += 1
+            try:
+                r = dsl.build(src)
+                if not rx.compiles(str(r))[0]:
+                    run.add([V(f'C10|lookalike|{src}', f"{src} -> {str(r)!r} which re rejects", f"from mc import rx\nassert rx.compiles(str({src}))[0]")])
+            except Exception as e:  # noqa: BLE001
+                run.add([V(f'C10|lookalike|{src}', f"{src}: raised {type(e).__name__} for fixed-width literal assertions", f"r = {src}")])
+    run.count('variable_width_sweep_cases', n)
+    cov['transitions'] += n
+    cov['traces_validated_against_impl'] += n
+    cov['rule'] += f' || variable-width assertions built from {len(lits)} literals (10 forms) and literal/pattern look-alikes in the n-ary classes must be refused'
     return cov, assumptions
 
 
@@ -348,7 +412,7 @@ def run_C08(run):
     opt = [o for o in dsl.quantifier_ops() if o.name == 'optional' and o.params == (True,)]
     cat = [o for o in dsl.binary_ops() if o.name in ('concat', 'either')]
     partners = [("Pregex('b')", 'b'), ("Capture('c')", None), ("Capture('c', 'z')", None)]
-    atoms = al.atom_list(['a', '(', ')', '?:', '?P<', '(?P<x>', '(?i:', '(a)', '(?:a)', 'A'],
+    atoms = al.atom_list(['a', '(', ')', '?:', '?P<', '(?P<x>', '(?i:', '(a)', '(?:a)', 'A', '\\\\', 'a\\\\', '\\\\\\', ':a', '::'],
                          ["AnyLetter()", "AnyButFrom(')')", "AnyFrom('(', 'a')", "OneOrMore(AnyButFrom(')'))", "AnyFrom('?', ':')", "Either('a', 'B')", "FollowedBy(Pregex(), 'b')", "NotPrecededBy(Pregex(), 'b')",
                           "FollowedBy('a', 'b')", "Conditional('n', 'a')", "Conditional('n', 'a', 'B')", 'Backreference(1)',
                           "Backreference('n')", "Capture('a')", "Capture('a', 'x')", "Group('a', True)", "Group('aB')", 'Pregex()'])
